@@ -31,6 +31,7 @@ unsafe impl GlobalAlloc for Counting {
 static GLOBAL: Counting = Counting;
 
 mod frame;
+mod enc;
 thread_local! { pub static LAST_PANIC: std::cell::RefCell<String> = std::cell::RefCell::new(String::new()); }
 pub fn last_panic() -> String { LAST_PANIC.with(|p| p.borrow().clone()) }
 mod codec;
@@ -59,6 +60,8 @@ fn handle(ws: &[&str]) -> String {
         ["wframe", exp, dir, len, fill] => frame::wframe(exp, dir, len.parse().unwrap_or(0), fill.parse().unwrap_or(0)),
         ["rframe", exp, dir, api, hdr, len, fill, extra] => frame::rframe(exp, dir, api, hdr, len.parse().unwrap_or(0), fill.parse().unwrap_or(0), extra.parse().unwrap_or(0)),
         ["seq", exp, dir, api, lens] => frame::seq(exp, dir, api, lens),
+        ["eseq", exp, dir, api, key, msgs] => enc::eseq(exp, dir, api, key, msgs),
+        ["cipherlaw", exp, key, data] => enc::cipherlaw(exp, key, data),
         ["codec", lib, dir, hex] => codec::codec(lib, dir, hex),
         ["dec", lib, dir, hex] => {
             let Some(bytes) = unhex(hex) else { return "bad-op".into() };
